@@ -27,7 +27,8 @@ import numpy as np
 import warnings
 
 from holopy.scattering.scatterer import Sphere, Spheroid, Cylinder
-from holopy.scattering.errors import TheoryNotCompatibleError, TmatrixFailure
+from holopy.scattering.errors import (
+    TheoryNotCompatibleError, TmatrixFailure, InvalidScatterer)
 from holopy.core.errors import DependencyMissing
 from holopy.scattering.theory.scatteringtheory import ScatteringTheory
 try:
@@ -71,6 +72,10 @@ class Tmatrix(ScatteringTheory):
     def raw_scat_matrs(self, scatterer, pos, medium_wavevec, medium_index):
         args = self._parse_args(scatterer, pos, medium_wavevec, medium_index)
         s = self._run_tmat(args)
+        if np.isnan(s).any():
+            msg = ("T-matrix calculation did not converge. The scatterer's " +
+                   "size or aspect ratio is probably too large.")
+            raise InvalidScatterer(scatterer, msg)
         return s
 
     def _parse_args(self, scatterer, pos, medium_wavevec, medium_index):
